@@ -337,7 +337,7 @@ func (vm *VM) callNative(fn *NativeFunction, numVariadic int8, shift StackShift,
 			if i < lastNonVariadic {
 				if i < 2 && typ.In(i) == envType {
 					// Set the path of the file that contains the call.
-					if vm.main {
+					if vm.main && vm.fn != nil {
 						env := vm.env
 						env.mu.Lock()
 						env.callPath = vm.fn.InstructionInfo[vm.pc-1].Path
